@@ -46,12 +46,16 @@ Asms == IF Tier = "quick" THEN QuickAsms ELSE ThoroughAsms
 NOfPanel(k) == << R(-3 + k, 1), R(2 * k - 3, 2), R(k, 4) >>
 ForcesOf(pd, k) == << <<RMul(R(1,2), pd.a), RMul(R(1, k + 1), pd.b), R(k,1), R(-2,1), R(3,1)>>,
                       <<pd.a, RMul(R(1,4), pd.b), R(5,2), RZero, R(-k,1)>> >>
-ForcesIncOf(pd, k) == IF k % 2 = 0 THEN <<>> ELSE << <<RMul(R(1,4), pd.a), pd.b, RZero, R(1,2), R(7,1)>> >>
+ForcesIncOf(pd, k) == << <<RMul(R(1,4), pd.a), pd.b, RZero, R(1,2), R(7,1)>>, <<RMul(R(3,4), pd.a), RMul(R(1, k + 2), pd.b), R(-k,1), R(1,1), RZero>> >>
+(* load pattern of panel k under shift s: constant forces only / incrementable only / unloaded / both -- side by side *)
+Pattern(k, s) == (k + s) % 4
+ConstOf(pd, k, s) == IF Pattern(k, s) \in {0, 3} THEN ForcesOf(pd, k) ELSE <<>>
+IncOf(pd, k, s) == IF Pattern(k, s) \in {1, 3} THEN ForcesIncOf(pd, k) ELSE <<>>
 AsmReqs(ad) ==
     { [q |-> "size"], [q |-> "k0"], [q |-> "kM"],
-      [q |-> "kG0", N |-> Fn([k \in 1..Len(ad.pds) |-> NOfPanel(k)])],
-      [q |-> "fext", forces |-> Fn([k \in 1..Len(ad.pds) |-> ForcesOf(ad.pds[k], k)]),
-       forcesInc |-> Fn([k \in 1..Len(ad.pds) |-> ForcesIncOf(ad.pds[k], k)]), inc |-> R(3,8)] }
+      [q |-> "kG0", N |-> Fn([k \in 1..Len(ad.pds) |-> NOfPanel(k)])] }
+    \cup { [q |-> "fext", forces |-> Fn([k \in 1..Len(ad.pds) |-> ConstOf(ad.pds[k], k, s)]),
+            forcesInc |-> Fn([k \in 1..Len(ad.pds) |-> IncOf(ad.pds[k], k, s)]), inc |-> inc] : s \in 0..3, inc \in {R(3,8), RZero, R(7,4)} }
 
 (* non-linear cases: small orders, all amplitudes active *)
 B1 == Pn("plate",  A_, R(3,2), RZero,  2, 2, FlPrimes, LamGen, R(1,1))      \* 12
@@ -62,7 +66,7 @@ NLAsms == IF Tier = "quick"
           ELSE { Asm(<<B2, B1>>, << <<"SSycte", 2, 1, ROne, RZero>> >>),
                  Asm(<<B1, B3, B2>>, << <<"BFycte", 1, 2, R(1,2), RZero>>, <<"SSycte", 2, 3, ROne, RZero>> >>) }
 NLState(n) == Fn([k \in 1..n |-> R(((k * 5 + 2) % 9) - 4, 16)])
-NLReqs(ad) == { [q |-> qq, c |-> NLState(AsmSize(ad))] : qq \in {"fint", "kT"} }
+NLReqs(ad) == { [q |-> qq, c |-> NLState(AsmSize(ad))] : qq \in {"fint", "kT", "kGc"} }
 
 (* ---- bays ------------------------------------------------------------------------ *)
 SkF == PD("plate",  A_, R(3,2), RZero,  RZero, ROne, 3, 3, FlPrimes, LamSym, RZero, ROne, R(3,1), Zero3)
@@ -107,7 +111,7 @@ CutsS == << R(1,2), R(1,1) >>
 QuickStiffBays ==
     { Bay(SkS, CutsS, <<B2f, B2bf>>), Bay(SkS, CutsS, <<B2bf, B2f>>),
       Bay(SkS, CutsS, <<T2a, B2f, B1f, T2b>>), Bay(SkS, CutsS, <<B1bf, B1f>>),
-      Bay(SkS, CutsS, <<T2b, T2a>>),
+      Bay(SkS, CutsS, <<T2b, T2a>>), Bay(SkS, CutsS, <<T2a, T2b>>),
       Bay(SkSc, CutsS, <<B2bf, T2a, B2f, T2b, B1f, B1bf>>),
       Bay(SkSc, CutsS, <<T2a, B1f, B2f>>),
       Bay(SkS, CutsS, <<B2f, B2b>>), Bay(SkS, CutsS, <<B1b, B1a>>), Bay(SkSc, CutsS, <<B1a, B1b, B1f>>) }
